@@ -12,6 +12,10 @@ def m(name, rule, key, file, old, new):
     return dict(name=name, kind='mutant', rule=rule, key=key, edits=[dict(file=file, old=old, new=new)])
 
 CASES = [
+    dict(name='revert-fix-literal-fields-shared', kind='mutant', rule='R1', key='type:LiteralStr:own-fields',
+         edits=[dict(file='pedal/types/new_types.py', old="        # Type.__init__ gives this instance its own `fields` table (instead of sharing the class's)\n        super().__init__()\n", new="")]),
+    dict(name='twin-literal-init-calls-Type-init-explicitly', kind='twin',
+         edits=[dict(file='pedal/types/new_types.py', old="        # Type.__init__ gives this instance its own `fields` table (instead of sharing the class's)\n        super().__init__()\n", new="        Type.__init__(self)\n")]),
     m('new-module-cache-in-tifa', 'R1', 'state:pedal.tifa.commands:_RESULT_CACHE', TC,
       "def tifa_analysis(code=None, report=MAIN_REPORT):", "_RESULT_CACHE = {}\n\n\ndef tifa_analysis(code=None, report=MAIN_REPORT, _cache=True):\n    _RESULT_CACHE[code] = report\n    return _tifa_analysis(code, report)\n\n\ndef _tifa_analysis(code=None, report=MAIN_REPORT):"),
     m('class-level-list-appended', 'R1', 'state:pedal.core.report:Report.HISTORY', RP,
